@@ -5,6 +5,7 @@
 #include <cstdint>
 #include <cstring>
 #include <initializer_list>
+#include <iterator>
 #include <limits>
 #include <stdexcept>
 
@@ -1198,6 +1199,40 @@ class VectorImpl : public VectorDestr<T, Alloc, SizeType, WithInlineElements, Gr
   /// The behavior is undefined if either argument is an iterator into *this.
   template <class InputIt, typename std::enable_if<!std::is_integral<InputIt>::value, bool>::type = true>
   void assign(InputIt first, InputIt last) {
+    assign_range(first, last, is_multipass<InputIt>());
+  }
+
+ private:
+  /// Single pass input iterators cannot be measured with std::distance without consuming them.
+  template <class It>
+  using is_multipass =
+      std::is_base_of<std::forward_iterator_tag, typename std::iterator_traits<It>::iterator_category>;
+
+  template <class InputIt>
+  void assign_range(InputIt first, InputIt last, std::false_type) {
+    clear();
+    append_range(first, last, std::false_type());
+  }
+
+  template <class InputIt>
+  void append_range(InputIt first, InputIt last, std::false_type) {
+    for (; first != last; ++first) {
+      this->emplace_back(*first);
+    }
+  }
+
+  template <class InputIt>
+  iterator insert_range(const_iterator position, InputIt first, InputIt last, std::false_type) {
+    // append the elements one by one, then rotate them into place
+    const size_type idx = static_cast<size_type>(position - this->cbegin());
+    const size_type oldSize = this->size();
+    append_range(first, last, std::false_type());
+    std::rotate(this->begin() + idx, this->begin() + oldSize, end());
+    return this->begin() + idx;
+  }
+
+  template <class ForwardIt>
+  void assign_range(ForwardIt first, ForwardIt last, std::true_type) {
     uintmax_t count = std::distance(first, last);
     if (static_cast<uintmax_t>(this->size()) < count) {
       this->adjustCapacity(count);
@@ -1209,6 +1244,7 @@ class VectorImpl : public VectorDestr<T, Alloc, SizeType, WithInlineElements, Gr
     this->setSize(static_cast<SizeType>(count));
   }
 
+ public:
   void assign(std::initializer_list<T> ilist) { assign(ilist.begin(), ilist.end()); }
 
   iterator insert(const_iterator position, const_reference v) {
@@ -1253,7 +1289,13 @@ class VectorImpl : public VectorDestr<T, Alloc, SizeType, WithInlineElements, Gr
   template <class InputIt, typename std::enable_if<!std::is_integral<InputIt>::value, bool>::type = true>
   iterator insert(const_iterator position, InputIt first, InputIt last) {
     assert(position >= this->cbegin() && position <= cend());
-    typename std::iterator_traits<InputIt>::difference_type count = std::distance(first, last);
+    return insert_range(position, first, last, is_multipass<InputIt>());
+  }
+
+ private:
+  template <class ForwardIt>
+  iterator insert_range(const_iterator position, ForwardIt first, ForwardIt last, std::true_type) {
+    typename std::iterator_traits<ForwardIt>::difference_type count = std::distance(first, last);
     iterator pos;
     if (count > 0) {
       pos = this->adjustCapacity(static_cast<uintmax_t>(this->size()) + count, position);
@@ -1271,6 +1313,7 @@ class VectorImpl : public VectorDestr<T, Alloc, SizeType, WithInlineElements, Gr
     return pos;
   }
 
+ public:
   iterator insert(const_iterator pos, std::initializer_list<T> list) { return insert(pos, list.begin(), list.end()); }
 
   /// @brief Erases element at position in the vector. A 'large' SmallVector will not become small even if the size can
@@ -1344,9 +1387,21 @@ class VectorImpl : public VectorDestr<T, Alloc, SizeType, WithInlineElements, Gr
   /// The behavior is undefined if first and last are iterators into *this
   template <class InputIt, typename std::enable_if<!std::is_integral<InputIt>::value, bool>::type = true>
   void append(InputIt first, InputIt last) {
+    append_range(first, last, is_multipass<InputIt>());
+  }
+
+ private:
+  template <class ForwardIt>
+  void append_range(ForwardIt first, ForwardIt last, std::true_type) {
     this->adjustCapacity(static_cast<uintmax_t>(this->size()) + std::distance(first, last));
     this->setSize(static_cast<SizeType>(amc::uninitialized_copy(first, last, end()) - this->begin()));
   }
+
+#ifdef AMC_NONSTD_FEATURES
+ public:
+#else
+ protected:
+#endif
 
   void append(size_type count) {
     this->adjustCapacity(static_cast<uintmax_t>(this->size()) + count);
